@@ -35,12 +35,13 @@ const sentinelCmd = "c18sentinel"
 const banner = "THIS SHOULD NOT HAPPEN" // client/network/tick.go, Run()'s deferred recover
 
 type runCase struct {
-	Incoming  bool  `json:"incoming"`
-	Syncing   bool  `json:"syncing"`
-	Handshake bool  `json:"handshake"`           // a properly framed good version message goes first
-	KeyFirst  bool  `json:"key_first"`           // ... followed by a properly signed xauth (AES context + authorised)
-	Bystander bool  `json:"bystander,omitempty"` // another peer is connected and has completed its handshake
-	Frames    []msg `json:"frames"`
+	Incoming  bool   `json:"incoming"`
+	Syncing   bool   `json:"syncing"`
+	Handshake bool   `json:"handshake"`           // a properly framed good version message goes first
+	KeyFirst  bool   `json:"key_first"`           // ... followed by a properly signed xauth (AES context + authorised)
+	Bystander bool   `json:"bystander,omitempty"` // another peer is connected and has completed its handshake
+	Peers     string `json:"peers,omitempty"`     // peers database at the start (see resetWith)
+	Frames    []msg  `json:"frames"`
 }
 
 var (
@@ -160,7 +161,7 @@ func runRun(rc runCase, cp *capture) (err error) {
 		}
 	}()
 	e := getEnv()
-	e.reset(rc.Syncing)
+	e.resetWith(rc.Syncing, rc.Peers)
 	var off int64
 	if cp != nil {
 		off = cp.mark()
@@ -198,7 +199,11 @@ func runRun(rc runCase, cp *capture) (err error) {
 	go func() {
 		defer close(written)
 		send := func(m *msg) bool {
-			b := frame(e, m, resolve(e, nil, m))
+			pl := resolve(e, nil, m)
+			if m.Cmd == "addr" {
+				e.touchAddr(pl)
+			}
+			b := frame(e, m, pl)
 			mine.SetWriteDeadline(time.Now().Add(hangBound))
 			_, werr := mine.Write(b)
 			return werr == nil
@@ -326,6 +331,11 @@ func genRunCase(t *rapid.T) runCase {
 	rc.KeyFirst = rc.Handshake && g.chance(35)
 	rc.Bystander = g.chance(30)
 	seq := g.sequence(12)
+	if g.chance(8) {
+		rc.Peers = pick(g, []string{"full", "below"})
+		rc.Handshake = true
+		seq = append([]msg{g.addrFresh()}, seq...)
+	}
 	if rc.Bystander && !rc.Handshake && g.chance(50) {
 		v := msg{Cmd: "version", Pl: hexs(goodVersion(1, "/Satoshi:26.0.0/", baseBlocks)), Kind: "wf", Dyn: "ver_peernonce"}
 		seq = append([]msg{v}, seq...)
@@ -364,6 +374,9 @@ func TestRunLoop(t *testing.T) {
 		}
 		if rc.KeyFirst {
 			r.Class("authorised_with_key")
+		}
+		if rc.Peers != "" {
+			r.Class("peers_db/" + rc.Peers)
 		}
 		if rc.Bystander {
 			r.Class("bystander_connection")
